@@ -57,6 +57,12 @@ QueryPlacement(pl) == pl \in {"where", "having", "join-on", "select-item", "orde
 Sev == [LOW |-> 1, MEDIUM |-> 2, HIGH |-> 3, CRITICAL |-> 4]
 Thresholds == {"LOW", "MEDIUM", "HIGH", "CRITICAL"}
 
+\* ScriptLaw (checked by the driver on the real scanner): a tree holds a sequence of statements; its findings are the
+\* findings of the statements one after the other, and every count is the count of that list.  Each case is also placed
+\* first, in the middle and twice in a script of up to three statements.
+RECURSIVE ScriptFindings(_)
+ScriptFindings(perStatement) == IF perStatement = <<>> THEN <<>> ELSE Head(perStatement) \o ScriptFindings(Tail(perStatement))
+
 VARIABLES payload, exprs, place, nests, threshold, findings, pc
 vars == <<payload, exprs, place, nests, threshold, findings, pc>>
 
